@@ -13,3 +13,4 @@ pub mod mrt;
 pub mod frim;
 pub mod bmp_http;
 pub mod targets;
+pub mod manager;
